@@ -30,7 +30,7 @@ Inductive event :=
 | EvI (by_ : N) (p : point). (* idle routine of the entry created by request by_: PFire = timer fired; else released from p *)
 
 (* per client thread: res 0 = returned nil, 1 = the clean "already closed" error, 2 = another
-   error, 3 = did not return; ran = the callback ran; probe = s.Info() succeeded inside the
+   error, 3 = did not return, 4 = panicked; ran = the callback ran; probe = s.Info() succeeded inside the
    callback; direx = the shard directory existed inside the callback *)
 Record tobs := mkObs { o_res : N; o_ran : bool; o_probe : bool; o_direx : bool }.
 
@@ -224,7 +224,8 @@ Definition verdict (c : c12case) : N :=
   | CSched fixedFlag backup nshards threads sched obs hang entries fresh dup =>
       let observed := (map (fun o => (o_res o, o_ran o)) obs, entries) in
       first_fail
-        [ (forallb (fun o => implb (o_ran o) (o_probe o)) obs, 101);
+        [ (forallb (fun o => negb (N.eqb (o_res o) 4)) obs, 111);
+          (forallb (fun o => implb (o_ran o) (o_probe o)) obs, 101);
           (forallb (fun o => implb (o_ran o) (o_direx o)) obs, 102);
           (negb hang && forallb (fun o => negb (N.eqb (o_res o) 3)) obs, 103);
           (N.eqb fresh 0, 104);
